@@ -7,6 +7,8 @@ def run_case(seed, index, props):
     w = gen_wbs(rng, rng.randint(1, 6), alph=SINGLE_LINE); w.title = 'T'; w.rev = 3
     for t in w.tasks:
         if rng.random() < .3: t.min_start = datetime(2024, rng.randint(1, 12), rng.randint(1, 28))
+        if rng.random() < .15: t.reviewer = None          # a custom attribute whose value is None is still an attribute of the task
+        if rng.random() < .1: t.milestone = None
     tags = set(); viol = []
     bad = lambda c, d='': viol.append((c, d))
     outs = [Task(rng.choice([100 + j, 100 + j, 100 + j, rng.choice([t.id for t in w.tasks])]), f'o{j}') for j in range(2)]
@@ -30,6 +32,7 @@ def run_case(seed, index, props):
     if view(c, True) != before_sets: bad('C10 copy differs from source', _diff(view(c, True), before_sets))
     for t, tc in zip(w.tasks, c.tasks):
         if tc is t: bad('C10 copy shares a task object with the source')
+        if tc.id == t.id and _pub(tc) != _pub(t): bad('C10 public instance attributes of a copied task differ in names or values', f'{t.id}: {_pub(tc)} vs {_pub(t)}'[:160])
         if tc.wbs is not c: bad('C10 copied task does not report the new WBS as owner')
         for side in ('predecessors', 'successors'):
             for x in getattr(t, side):
@@ -64,6 +67,10 @@ def run_case(seed, index, props):
                     if x.wbs is not s and not any(x is o for o in outs): bad('C10 subtree link points to a task of the source')
             if st.wbs is not s: bad('C10 subtree task does not report the new WBS')
     return viol, tags, desc, 'ok'
+
+
+def _pub(t):
+    return {k: v for k, v in t.__dict__.items() if not k.startswith('_')}
 
 
 def _diff(a, b):
